@@ -2,6 +2,7 @@ package main
 
 import (
 	"fmt"
+	"strconv"
 	"go/token"
 	"go/types"
 	"sort"
@@ -31,8 +32,14 @@ func (p *Prog) literalSites() []litSite {
 		}
 		eachInstr(fn, func(in ssa.Instruction) {
 			al, ok := in.(*ssa.Alloc)
-			if !ok || al.Comment != "complit" {
+			if !ok {
 				return
+			}
+			if al.Comment != "complit" {
+				// `v := T{…}` is built in place in v's own cell: field stores and no store of a whole value
+				if len(cellWrites(al)) > 0 {
+					return
+				}
 			}
 			pt, ok := al.Type().Underlying().(*types.Pointer)
 			if !ok {
@@ -334,3 +341,148 @@ func ruleExhaustiveTypeSwitch(id string) func(*Checker) {
 	}
 }
 
+
+// ruleDiagsReachResult — diagnostics gathered during a build are appended to
+// what the function returns, not to a variable of the same name.
+func ruleDiagsReachResult(id string) func(*Checker) {
+	return func(c *Checker) {
+		c.rule(id, "In every function of the bundle package with a named result of type Diagnostics that is kept in a cell (it is read by a deferred closure or written by callbacks), each append that produces a Diagnostics value — in the function or in a closure of it — is stored back into that result cell: `diags := append(diags, moreDiags...)` inside a block declares a new variable, and what the dependency finder reported never reaches the caller (nor the HasErrors test that disables the builder).", 3)
+		p := c.P
+		isDiags := func(t types.Type) bool {
+			nm, ok := types.Unalias(t).(*types.Named)
+			return ok && nm.Obj().Name() == "Diagnostics" && nm.Obj().Pkg() != nil && nm.Obj().Pkg().Path() == p.PkgPath("sourcebundle")
+		}
+		for _, fn := range p.Funcs {
+			if !inBundlePkg(p, fn) || fn.Parent() != nil {
+				continue
+			}
+			// the result cell: an Alloc of type *Diagnostics whose load is returned
+			var cell *ssa.Alloc
+			for _, r := range returnsOf(fn) {
+				for _, v := range r.Results {
+					if ld, ok := v.(*ssa.UnOp); ok && ld.Op == token.MUL && isDiags(ld.Type()) {
+						if al, ok := ld.X.(*ssa.Alloc); ok {
+							cell = al
+						}
+					}
+				}
+			}
+			if cell == nil {
+				continue
+			}
+			fam := []*ssa.Function{fn}
+			for i := 0; i < len(fam); i++ {
+				fam = append(fam, fam[i].AnonFuncs...)
+			}
+			for _, f := range fam {
+				eachInstr(f, func(in ssa.Instruction) {
+					cl, ok := in.(*ssa.Call)
+					if !ok || !isDiags(cl.Type()) {
+						return
+					}
+					b, ok := cl.Call.Value.(*ssa.Builtin)
+					if !ok || b.Name() != "append" {
+						return
+					}
+					stored := false
+					if refs := cl.Referrers(); refs != nil {
+						for _, r := range *refs {
+							st, ok := r.(*ssa.Store)
+							if !ok || st.Val != ssa.Value(cl) {
+								continue
+							}
+							if rootCell(st.Addr) == ssa.Value(cell) {
+								stored = true
+							}
+						}
+					}
+					c.check(stored, id, p.FuncName(f), "appended diagnostics stored in the result", p.Pos(cl.Pos()), "append(…) is stored into the named result", "the diagnostics appended here are stored in another variable than the function's result (a `:=` in an inner block declares a new one): they are lost, the caller sees a successful build and the builder is not disabled")
+				})
+			}
+		}
+	}
+}
+
+// ruleC07ArchiveSuffix — the archive suffixes tested are the documented ones.
+func ruleC07ArchiveSuffix(c *Checker) {
+	const R = "C07.suffix"
+	c.rule(R, "In the https source type's PrepareURL the suffix tests made on the URL path (strings.HasSuffix with a constant) are exactly the documented \".tar.gz\" and \".tgz\", dot included, and both are there: \"tgz\" without the dot accepts https://example.com/footgz, which is neither an archive path nor carries an archive argument.", 2)
+	p := c.P
+	want := map[string]bool{".tar.gz": false, ".tgz": false}
+	n := 0
+	for _, fn := range p.Funcs {
+		if fn.Package() == nil || fn.Package().Pkg.Path() != p.PkgPath("sourceaddrs") || !strings.Contains(p.FuncName(fn), "httpSourceType") {
+			continue
+		}
+		for _, h := range sortedFuncs(p.family(fn)) {
+			for _, ci := range callsTo(h, func(o *types.Func) bool { return isFunc(o, "strings", "HasSuffix") }) {
+				k, isC := constString(ci.Common().Args[1])
+				if !isC {
+					continue
+				}
+				n++
+				_, ok := want[k]
+				if ok {
+					want[k] = true
+				}
+				c.check(ok, R, p.FuncName(h), "suffix "+strconv.Quote(k), p.Pos(ci.Pos()), "a documented archive suffix", "the path is accepted when it ends in "+strconv.Quote(k)+", which is not one of the documented archive suffixes .tar.gz and .tgz (a missing dot accepts …/footgz)")
+			}
+		}
+	}
+	for k, seen := range want {
+		c.check(seen, R, "(sourceaddrs.httpSourceType).PrepareURL", "suffix "+strconv.Quote(k)+" tested", "-", "tested", "the documented archive suffix "+k+" is no longer accepted: an address that follows the grammar is refused")
+	}
+	_ = n
+}
+
+// ruleC06QueryCut — the printer of a remote source with a sub-path cuts the
+// package string exactly at its question mark.
+func ruleC06QueryCut(c *Checker) {
+	const R = "C06.querycut"
+	c.rule(R, "Where a printer of the address package looks for \"?\" in a string with strings.Index and then slices that string, the pieces are exactly s[:idx] and s[idx:] for that very index: the sub-path goes between the package and its query string, and a cut one byte off duplicates or drops the question mark (…//sub?ref=x printed as …?//sub?ref=x or …//subref=x), which parses back to a different address or not at all.", 1)
+	p := c.P
+	n := 0
+	for _, fn := range p.Funcs {
+		if fn.Package() == nil || fn.Package().Pkg.Path() != p.PkgPath("sourceaddrs") {
+			continue
+		}
+		// only printers: functions that return a single string
+		res := fn.Signature.Results()
+		if res.Len() != 1 || !isStringType(res.At(0).Type()) {
+			continue
+		}
+		for _, ci := range callsTo(fn, func(o *types.Func) bool { return isFunc(o, "strings", "Index") }) {
+			cl, ok := ci.(*ssa.Call)
+			if !ok {
+				continue
+			}
+			if k, isC := constString(cl.Call.Args[1]); !isC || k != "?" {
+				continue
+			}
+			str := cl.Call.Args[0]
+			var slices []*ssa.Slice
+			eachInstr(fn, func(in ssa.Instruction) {
+				if sl, ok := in.(*ssa.Slice); ok && (sl.X == str || canon(sl.X) == canon(str)) {
+					slices = append(slices, sl)
+				}
+			})
+			if len(slices) == 0 {
+				continue
+			}
+			n++
+			head, tail, other := 0, 0, 0
+			for _, sl := range slices {
+				switch {
+				case sl.Low == nil && sl.High == ssa.Value(cl) && sl.Max == nil:
+					head++
+				case sl.Low == ssa.Value(cl) && sl.High == nil && sl.Max == nil:
+					tail++
+				default:
+					other++
+				}
+			}
+			c.check(head >= 1 && tail >= 1 && other == 0, R, p.FuncName(fn), "string cut at the index of \"?\"", p.Pos(cl.Pos()), "s[:idx] and s[idx:]", fmt.Sprintf("the string searched for \"?\" is sliced otherwise than into s[:idx] and s[idx:] (%d head, %d tail, %d other slice(s)): the question mark is duplicated, dropped, or the whole string repeated when the address is printed", head, tail, other))
+		}
+	}
+	c.check(n > 0, R, "-", "printer that cuts at \"?\"", "-", fmt.Sprintf("%d site(s)", n), "no printer looks for the query string any more: a sub-path would be printed after the query")
+}
